@@ -86,7 +86,8 @@ func c03Stmts(p c03Params) []*Stmt {
 }
 
 // uniqOK: with a unique index a statement may not create a second entry for a key. Index entries of
-// deleted rows stay until commit, so any row image of the model (committed or pending) counts.
+// deleted rows stay until commit, so any row image of the model (committed, pending, or the image a row had
+// when the open transaction deleted it - also a row that this transaction had inserted itself) counts.
 func uniqOK(w *World, s *Stmt) bool {
 	var key any
 	switch s.Kind {
@@ -101,7 +102,7 @@ func uniqOK(w *World, s *Stmt) bool {
 		return true
 	}
 	for _, r := range w.model.Tables["t"].Rows {
-		for _, img := range [][]any{r.Com, r.Pend} {
+		for _, img := range [][]any{r.Com, r.Pend, r.DelImg} {
 			if img != nil && img[0] == key {
 				return false
 			}
